@@ -1150,11 +1150,30 @@ func (a *lfAn) call(u *lfUnit, c *ast.CallExpr, held []lfHeld, isGo bool) {
 		a.expr(u, c.Fun, 'r', held)
 	}
 	for _, arg := range c.Args {
+		if fl, ok := arg.(*ast.FuncLit); ok && a.isWrapperCall(u, c, isGo) {
+			_ = fl
+			continue // analysed below with the wrapper's lock held
+		}
 		a.expr(u, arg, 'r', held)
 	}
 	recv := ""
 	if f, ok := c.Fun.(*ast.SelectorExpr); ok {
 		recv = lfPrint(a.w.fset, f.X)
+	}
+	// x.withLock(func() { ... }): the literal runs with x's lock held by the wrapper
+	wrapped := map[ast.Expr]bool{}
+	if fsel, ok := c.Fun.(*ast.SelectorExpr); ok && !isGo && len(c.Args) == 1 {
+		if fl, ok := c.Args[0].(*ast.FuncLit); ok {
+			if ks := a.resolveCall(u, c, false); len(ks) == 1 {
+				if wr, ok := lfWrappers[ks[0]]; ok {
+					_ = fsel
+					h := lfHeld{name: wr.typ + "." + wr.field, excl: wr.excl, base: recv, expr: recv + "." + wr.field, ctx: true, inferred: true}
+					k := a.closureCtx(u, fl, []lfHeld{h})
+					u.events = append(u.events, lfEvent{held: lfClone(held, h), callees: []string{k}, pos: fl.Pos()})
+					wrapped[c.Args[0]] = true
+				}
+			}
+		}
 	}
 	if isGo {
 		// runs in another goroutine: holds none of our locks
@@ -1178,10 +1197,16 @@ func (a *lfAn) call(u *lfUnit, c *ast.CallExpr, held []lfHeld, isGo bool) {
 }
 
 func (a *lfAn) closure(u *lfUnit, f *ast.FuncLit, isGo bool) string {
+	return a.closureCtx(u, f, nil)
+}
+
+// closureCtx analyses a function literal; ctx = the locks a lock-wrapper helper holds while it
+// runs the literal (see lfFindWrappers), nil for every other literal
+func (a *lfAn) closureCtx(u *lfUnit, f *ast.FuncLit, ctx []lfHeld) string {
 	*u.nlit++
 	k := fmt.Sprintf("%s$%d", u.pkg.key+"."+u.owner, *u.nlit)
 	c := &lfUnit{key: k, short: fmt.Sprintf("%s$%d", u.owner, *u.nlit), pkg: u.pkg, file: u.file,
-		body: f.Body, ftype: f.Type, env: u.env, owner: u.owner, nlit: u.nlit, direct: map[string]bool{}}
+		body: f.Body, ftype: f.Type, env: u.env, owner: u.owner, nlit: u.nlit, direct: map[string]bool{}, ctx: ctx}
 	// a closure never inherits the lock set or the init phase (conservative)
 	a.units[k] = c
 	a.order = append(a.order, k)
@@ -1615,6 +1640,115 @@ func (a *lfAn) fnBody(u *lfUnit) {
 // ---------------------------------------------------------------------------------------------
 // whole-program part: expectations check, may-acquire summary, lock-order edges, Lean output
 
+// lock-wrapper helpers: a method `func (x *T) withLock(fn func()) { x.mu.Lock(); defer x.mu.Unlock(); fn() }`
+// (or Lock; fn(); Unlock, or the RLock forms). A function literal passed to it runs with x.mu held.
+type lfWrapper struct {
+	typ, field string
+	excl       bool
+}
+
+var lfWrappers = map[string]lfWrapper{}
+
+func lfFindWrappers(w *lfWorld) {
+	lfWrappers = map[string]lfWrapper{}
+	for _, pc := range lfPackages {
+		p := w.pkgs[pc.key]
+		for _, lf := range p.files {
+			for _, d := range lf.f.Decls {
+				fd, ok := d.(*ast.FuncDecl)
+				if !ok || fd.Body == nil || fd.Recv == nil {
+					continue
+				}
+				rn := lfRecvName(fd)
+				ps := fd.Type.Params
+				if rn == "" || ps == nil || len(ps.List) != 1 || len(ps.List[0].Names) != 1 {
+					continue
+				}
+				ft, ok := ps.List[0].Type.(*ast.FuncType)
+				if !ok || (ft.Params != nil && len(ft.Params.List) > 0) || (ft.Results != nil && len(ft.Results.List) > 0) {
+					continue
+				}
+				pn := ps.List[0].Names[0].Name
+				// x.<field>.<op>()
+				lockOp := func(e ast.Expr) (field, op string) {
+					c, ok := e.(*ast.CallExpr)
+					if !ok || len(c.Args) != 0 {
+						return
+					}
+					s1, ok := c.Fun.(*ast.SelectorExpr)
+					if !ok {
+						return
+					}
+					s2, ok := s1.X.(*ast.SelectorExpr)
+					if !ok {
+						return
+					}
+					if id, ok := s2.X.(*ast.Ident); !ok || id.Name != rn {
+						return
+					}
+					return s2.Sel.Name, s1.Sel.Name
+				}
+				callsParam := func(st ast.Stmt) bool {
+					es, ok := st.(*ast.ExprStmt)
+					if !ok {
+						return false
+					}
+					c, ok := es.X.(*ast.CallExpr)
+					if !ok || len(c.Args) != 0 {
+						return false
+					}
+					id, ok := c.Fun.(*ast.Ident)
+					return ok && id.Name == pn
+				}
+				b := fd.Body.List
+				if len(b) != 3 {
+					continue
+				}
+				es0, ok := b[0].(*ast.ExprStmt)
+				if !ok {
+					continue
+				}
+				f0, op0 := lockOp(es0.X)
+				if op0 != "Lock" && op0 != "RLock" {
+					continue
+				}
+				want := map[string]string{"Lock": "Unlock", "RLock": "RUnlock"}[op0]
+				okShape := false
+				if ds, ok := b[1].(*ast.DeferStmt); ok && callsParam(b[2]) {
+					if f1, op1 := lockOp(ds.Call); f1 == f0 && op1 == want {
+						okShape = true
+					}
+				}
+				if es2, ok := b[2].(*ast.ExprStmt); ok && callsParam(b[1]) {
+					if f1, op1 := lockOp(es2.X); f1 == f0 && op1 == want {
+						okShape = true
+					}
+				}
+				if !okShape {
+					continue
+				}
+				short := lfFuncKey(fd)
+				typ := short
+				if i := strings.Index(short, "."); i >= 0 {
+					typ = short[:i]
+				}
+				lfWrappers[p.key+"."+short] = lfWrapper{typ: typ, field: f0, excl: op0 == "Lock"}
+			}
+		}
+	}
+}
+
+func (a *lfAn) isWrapperCall(u *lfUnit, c *ast.CallExpr, isGo bool) bool {
+	if _, ok := c.Fun.(*ast.SelectorExpr); !ok || isGo || len(c.Args) != 1 {
+		return false
+	}
+	if ks := a.resolveCall(u, c, false); len(ks) == 1 {
+		_, ok := lfWrappers[ks[0]]
+		return ok
+	}
+	return false
+}
+
 // lfInferred: unit key -> locks of the receiver object that every call site holds (computed by
 // lfInfer from the previous analysis round; empty in the first round)
 var lfInferred = map[string][]lfLockMode{}
@@ -1780,6 +1914,7 @@ func lockFactsLean(root string) (string, error) {
 			t = nt
 		}
 	}
+	lfFindWrappers(w)
 	loadErrs := append([]string{}, w.errs...)
 	lfInferred = map[string][]lfLockMode{}
 	var a *lfAn
